@@ -182,11 +182,21 @@ func checkValid(c Case) *vk.Failure {
 	return nil
 }
 
+// rapid's integer and SampledFrom generators favour small values; routine, flag
+// and fault selection must be uniform, so they are derived from drawn 64-bit
+// words through SplitMix.
+func word(t *rapid.T, label string) uint64 {
+	a, b, c := rapid.Uint64().Draw(t, label), rapid.Uint64().Draw(t, label), rapid.Uint64().Draw(t, label)
+	return a ^ (b<<21 | b>>43) ^ (c<<42 | c>>22)
+}
+
 func drawBase(t *rapid.T) Case {
 	var c Case
-	c.R = rapid.SampledFrom(names()).Draw(t, "routine")
+	g := vk.NewSplitMix(word(t, "pick"))
+	nm := names()
+	c.R = nm[g.Intn(len(nm))]
 	for i := range c.Fl {
-		c.Fl[i] = rapid.IntRange(0, 5).Draw(t, "flag")
+		c.Fl[i] = g.Intn(6)
 	}
 	sp := byName[c.R]
 	for i := 0; i < sp.nd; i++ {
@@ -206,11 +216,12 @@ func drawBase(t *rapid.T) Case {
 
 func drawFault(t *rapid.T) Case {
 	c := drawBase(t)
+	g := vk.NewSplitMix(word(t, "pickfault"))
 	fl := faultsOf(c)
 	if len(fl) > 0 {
-		c.Fault = rapid.SampledFrom(fl).Draw(t, "fault")
+		c.Fault = fl[g.Intn(len(fl))]
 	}
-	c.Bad = rapid.IntRange(0, 1).Draw(t, "badflag")
+	c.Bad = g.Intn(2)
 	return c
 }
 
